@@ -21,6 +21,7 @@ from spec import wire
 PROPERTY = "C06"
 FUNCTIONS = [
     "flow.record.base:is_valid_field_name",
+    "flow.record.base:RecordDescriptor.calc_descriptor_hash",
     "flow.record.base:_generate_record_class",
     "flow.record.base:RecordField.__init__",
     "flow.record.base:fieldtype",
@@ -429,8 +430,129 @@ def payload_battery():
     return {"ok": not probs, "detail": "; ".join(probs[:4]) or f"{n} definitions x 4 channels", "cex": {"problems": probs[:10]}}
 
 
+def _solve_shadow(kind, timeout_ms=60000):
+    """valid field list A and a definition B that is NOT acceptable, with the same descriptor identifier input (generated from the AST
+    of calc_descriptor_hash and the live name regex / whitelist). kind: which rule B breaks."""
+    import time
+
+    import flow.record.base as B_
+    from flow.record.whitelist import WHITELIST
+    from vf.smt import regex
+    from vf.smt.kse import Encoded, Evaluator, Untranslatable, get_function_ast
+
+    fn, mod, _ = get_function_ast("flow.record.base:RecordDescriptor.calc_descriptor_hash")
+    name_rx = regex.to_z3(B_.RE_VALID_FIELD_NAME, "match")
+    types = list(WHITELIST) + [t + "[]" for t in WHITELIST]
+    name = z3.StringVal("t/x")
+    lists, terms, cons = [], [], []
+    for side, n in (("A", 1), ("B", 1 if kind == "type" else 2)):
+        fields = tuple((z3.String(f"{side}t{i}"), z3.String(f"{side}n{i}")) for i in range(n))
+        ev = Evaluator(mod, width=64)
+        list(ev.run(list(fn.body), {"name": name, "fields": fields}, []))
+        if len(ev.hashes) != 1 or not isinstance(ev.hashes[0].arg, Encoded):
+            raise Untranslatable("hash input not found")
+        terms.append(ev.hashes[0].arg.term)
+        lists.append(fields)
+    (at, an), = lists[0]
+    cons += [z3.Or(*[at == z3.StringVal(x) for x in types]), z3.InRe(an, name_rx), z3.Length(an) <= 12, z3.Not(z3.PrefixOf(z3.StringVal("_"), an)), z3.Not(z3.SuffixOf(z3.StringVal("\n"), an))]
+    lower = z3.Plus(z3.Range("a", "z"))
+    bt, bn = lists[1][0]
+    if kind == "type":  # a field type that is not on the whitelist
+        cons += [z3.InRe(bt, lower), z3.Length(bt) >= 2, z3.And(*[bt != z3.StringVal(x) for x in types]), z3.InRe(bn, name_rx), z3.Not(z3.PrefixOf(z3.StringVal("_"), bn))]
+    elif kind == "underscore":  # a second field whose name starts with an underscore
+        bt1, bn1 = lists[1][1]
+        cons += [z3.Or(*[bt == z3.StringVal(x) for x in types]), z3.InRe(bn, name_rx), z3.Not(z3.PrefixOf(z3.StringVal("_"), bn)), z3.Or(*[bt1 == z3.StringVal(x) for x in types]),
+                 z3.InRe(bn1, z3.Concat(z3.Re("_"), lower))]
+    else:  # "split": two fields, the second with an empty type
+        bt1, bn1 = lists[1][1]
+        cons += [z3.Or(*[bt == z3.StringVal(x) for x in types]), z3.InRe(bn, name_rx), z3.Not(z3.PrefixOf(z3.StringVal("_"), bn)), bt1 == z3.StringVal(""), z3.InRe(bn1, lower)]
+    sol = z3.Solver()
+    sol.set("timeout", timeout_ms)
+    sol.add(*cons)
+    sol.add(terms[0] == terms[1])
+    t = time.perf_counter()
+    r = str(sol.check())
+    dt = time.perf_counter() - t
+    if r != "sat":
+        return r, None, dt
+    m = sol.model()
+    return r, tuple([(regex.model_string(m, t_), regex.model_string(m, n_)) for t_, n_ in fl] for fl in lists), dt
+
+
+def _deliver_shadowed(a_fields, b_fields):
+    """legitimate definition first, then the unacceptable one with the same identifier, through the stream and the JSON channel:
+    -> list of channels that ACCEPTED the second definition"""
+    import datetime as _dt
+    import warnings
+
+    from flow.record import RecordDescriptor
+    from flow.record.jsonpacker import JsonRecordPacker
+    from flow.record.stream import RecordStreamReader
+
+    gen = _dt.datetime(2020, 1, 1, tzinfo=_dt.timezone.utc)
+    accepted = []
+    a_vals = tuple("v" for _ in a_fields) + (None, None, gen, 1)
+    b_vals = tuple("v" for _ in b_fields) + (None, None, gen, 1)
+    frames = [wire.Desc("t/x", a_fields), wire.Rec("t/x", a_fields, a_vals), wire.Desc("t/x", b_fields), wire.Rec("t/x", b_fields, b_vals)]
+    with warnings.catch_warnings():
+        warnings.simplefilter("ignore")
+        try:
+            got = list(RecordStreamReader(io.BytesIO(wire.encode_stream(frames))))
+            accepted.append(f"stream frame ({len(got)} records read without an error)")
+        except Exception:  # noqa: BLE001 - refused
+            pass
+        try:
+            pk = JsonRecordPacker()
+            pk.unpack(json.dumps({"_type": "recorddescriptor", "_data": ["t/x", [list(f) for f in a_fields]]}))
+            d = pk.unpack(json.dumps({"_type": "recorddescriptor", "_data": ["t/x", [list(f) for f in b_fields]]}))
+            accepted.append(f"json line (resolved to {getattr(d, 'name', d)!r})")
+        except Exception:  # noqa: BLE001
+            pass
+    # sanity of the delivery itself: the legitimate definition alone must be readable
+    ok = list(RecordStreamReader(io.BytesIO(wire.encode_stream(frames[:2]))))
+    if len(ok) != 1:
+        raise RuntimeError("delivery harness broken: the legitimate prefix does not read back")
+    try:
+        RecordDescriptor("t/x", [tuple(f) for f in b_fields])
+        raise RuntimeError(f"solver witness {b_fields} is an acceptable definition (query wrong)")
+    except RuntimeError:
+        raise
+    except Exception:  # noqa: BLE001
+        pass
+    return accepted
+
+
+def shadowed_definition():
+    """SMT + delivery: an unacceptable definition whose identifier coincides with that of a legitimate, already registered descriptor
+    must still be refused when it arrives (a reader may not resolve a definition through the identifier alone)."""
+    from vf.smt.kse import Untranslatable
+
+    q, st, done = 0, 0.0, []
+    for kind in ("type", "underscore", "split"):
+        try:
+            r, pair, dt = _solve_shadow(kind)
+        except Untranslatable as e:
+            return {"verdict": "unknown", "detail": f"untranslatable: {e}", "queries": q, "solver_s": st}
+        q += 1
+        st += dt
+        if r == "unsat":
+            done.append(f"{kind}: no such pair within the bound")
+            continue
+        if r != "sat":
+            return {"verdict": "unknown", "detail": f"{kind}: {r}", "queries": q, "solver_s": st}
+        try:
+            acc = _deliver_shadowed(*pair)
+        except RuntimeError as e:
+            return {"verdict": "error", "detail": str(e), "queries": q, "solver_s": st}
+        if acc:
+            return {"verdict": "sat", "model": {"legit": [list(f) for f in pair[0]], "hostile": [list(f) for f in pair[1]], "accepted": acc}, "detail": f"{kind}: definition {pair[1]} accepted after {pair[0]} through {acc}", "queries": q, "solver_s": st}
+        done.append(f"{kind}: {pair[1]} after {pair[0]} refused")
+    return {"verdict": "unsat", "detail": "; ".join(done), "queries": q, "solver_s": st, "validated": len(done)}
+
+
 def obligations(tier, seed):
     return [
+        ob("O5-shadowed-definition", "smt", "shadowed_definition", {}, timeout=240, bounds="1 legitimate field (name <= 12 chars) vs 1-2 crafted fields with the same identifier input; 3 kinds of unacceptable definition"),
         ob("O1-field-names", "smt", "field_names", {}, timeout=240, bounds="all strings"),
         ob("O1-type-names", "smt", "type_names", {}, timeout=240, bounds="all strings"),
         ob("O3-fieldtype-guard", "smt", "fieldtype_guard", {}, timeout=240, bounds="all strings"),
@@ -444,6 +566,9 @@ def replay(res):
     if res["kind"] == "side":
         out = payload_battery()
         return {"reproduced": not out["ok"], "key": "C06/payloads", "what": out["detail"], "input": out["cex"]}
+    if "shadowed" in gid:
+        acc = _deliver_shadowed([tuple(f) for f in m.get("legit", [])], [tuple(f) for f in m.get("hostile", [])]) if m.get("hostile") else []
+        return {"reproduced": bool(acc), "key": "C06/shadowed-definition", "what": f"the unacceptable definition {m.get('hostile')} is accepted through {acc} when it arrives after the legitimate {m.get('legit')} (same descriptor identifier)", "input": m}
     # solver witnesses: deliver them through the four channels
     if m.get("refused"):
         from flow.record import RecordDescriptor
